@@ -33,6 +33,9 @@ type c10State struct {
 	last     *c10Obj          // object of the previous call if it was a Process call
 	lastErr  error
 	lastNote string
+	// witness: an independent tracker with two open descriptors that this history never touches
+	wit     scte35.State
+	witOpen []scte35.SegmentationDescriptor
 }
 
 type c10Alphabet struct {
@@ -113,7 +116,12 @@ var c10Alphabets = map[string]*c10Alphabet{
 }
 
 func c10New(alpha *c10Alphabet) *c10State {
-	return &c10State{alpha: alpha, st: scte35.NewState(), objs: map[scte35.SegmentationDescriptor]*c10Obj{}, gone: map[*c10Obj]bool{}}
+	s := &c10State{alpha: alpha, st: scte35.NewState(), objs: map[scte35.SegmentationDescriptor]*c10Obj{}, gone: map[*c10Obj]bool{}}
+	s.wit = scte35.NewState()
+	s.wit.ProcessDescriptor(mkDescriptor(c19Val{Type: 0x10, Event: 41, HasPTS: true, PTS: 7001, Num: 1, Exp: 1}))
+	s.wit.ProcessDescriptor(mkDescriptor(c19Val{Type: 0x30, Event: 42, HasPTS: true, PTS: 7002, Num: 1, Exp: 1}))
+	s.witOpen = s.wit.Open()
+	return s
 }
 
 func (s *c10State) mk(v c19Val) *c10Obj {
@@ -386,6 +394,10 @@ func c10Apply(s *c10State, op int, res *engine.Result, depth int) bool {
 			}
 			j++
 		}
+	}
+	// the independent witness tracker must not be affected by calls on this one
+	if wo := s.wit.Open(); len(wo) != len(s.witOpen) || (len(wo) == 2 && (wo[0] != s.witOpen[0] || wo[1] != s.witOpen[1])) {
+		res.Failf("witness|State|changed-by-calls-on-another-tracker", "%s on one tracker changed the open list of an independent tracker (%d -> %d entries)", kind, len(s.witOpen), len(wo))
 	}
 	if len(closed) > 0 {
 		res.Event("calls-that-closed")
